@@ -43,3 +43,13 @@ package conf
 //@   call loader#0: assert opt.env && ee && arg1 == v
 //@   call loader#1: assert !opt.env && sameSlice(arg0, content) && arg1 == v
 //@   loop 0: invariant implies(len(opts) == 0, !opt.env)
+
+// key lower-casing descends through arrays of any depth: every element of an array value goes through the same walk with
+// the same field information (so tables inside nested arrays get their keys matched case-insensitively too)
+//@ func toLowerCaseInterface
+//@   property C17
+//@   ghost at entry: walked = 0
+//@   ghost at after toLowerCaseInterface#0: walked = walked + 1
+//@   loop 0: invariant len(arr) == idx && walked == idx
+//@   call toLowerCaseInterface#*: assert arg_info == info
+//@   call toLowerCaseKeyMap#*: assert arg_info == info
